@@ -5,6 +5,7 @@ import (
 	"encoding/json"
 	"errors"
 	"fmt"
+	"math"
 	"strconv"
 	"strings"
 
@@ -132,14 +133,14 @@ func compareNumeric(left, right any) int {
 		case int64:
 			return compareNumbers(left, right)
 		case float64:
-			return compareNumbers(float64(left), right)
+			return compareIntFloat(left, right)
 		case json.Number:
 			if rightInt, err := right.Int64(); err == nil {
 				return compareNumbers(left, rightInt)
 			}
 			rightFloat, err := jsonFloat64(right)
 			if err == nil {
-				return compareNumbers(float64(left), rightFloat)
+				return compareIntFloat(left, rightFloat)
 			}
 			// This should not happen.
 			panic(err)
@@ -149,8 +150,11 @@ func compareNumeric(left, right any) int {
 		case float64:
 			return compareNumbers(left, right)
 		case int64:
-			return compareNumbers(left, float64(right))
+			return -compareIntFloat(right, left)
 		case json.Number:
+			if rightInt, err := right.Int64(); err == nil {
+				return -compareIntFloat(rightInt, left)
+			}
 			rightFloat, err := jsonFloat64(right)
 			if err == nil {
 				return compareNumbers(left, rightFloat)
@@ -172,6 +176,28 @@ func compareNumeric(left, right any) int {
 
 	// This should not happen
 	panic(fmt.Sprintf("Value not numeric: %q", left))
+}
+
+// compareIntFloat compares an int64 with a float64 by mathematical value.
+// Converting the integer to float64 first would lose precision above 2^53
+// and make, for example, 9007199254740993 equal to 9007199254740992.0.
+func compareIntFloat(left int64, right float64) int {
+	const two63 = float64(1 << 63)
+	switch {
+	case math.IsNaN(right):
+		return compareNumbers(float64(left), right)
+	case right >= two63:
+		return -1
+	case right < -two63:
+		return 1
+	}
+
+	whole := math.Trunc(right)
+	if cmp := compareNumbers(left, int64(whole)); cmp != 0 {
+		return cmp
+	}
+	// The integer parts are equal: the fraction decides.
+	return compareNumbers(0, right-whole)
 }
 
 // jsonFloat64 converts num to float64. A well-formed number too large for
